@@ -54,6 +54,7 @@ def universe(tier):
     dt1 = datetime.datetime(2000, 1, 1)
     A, B, E0 = _idx(0, 1), _idx(1, 2), pd.DatetimeIndex([])
     s_A = pd.Series([1., 2.], A)
+    buf, sq = np.array([1, 2, 3]), np.array([[1, 2], [3, 4]])
     U = [
         # scalars
         ('None', None), ('True', True), ('0', 0), ('1', 1), ('1.0', 1.0), ('2', 2), ("'a'", 'a'), ("''", ''),
@@ -76,7 +77,7 @@ def universe(tier):
         ("{'a':[1,2],'b':(3,)}", {'a': [1, 2], 'b': (3,)}),
         # arrays
         ('arr[]', np.array([])), ('arr[1,2]i', np.array([1, 2])), ('arr[1.,2.]', np.array([1., 2.])), ('arr[1.,nan]', np.array([1., np.nan])),
-        ('arr[[1,2]]', np.array([[1, 2]])), ('arr[[1],[2]]', np.array([[1], [2]])), ('arr[[1,2],[3,4]]', np.array([[1, 2], [3, 4]])),
+        ('arr[[1,2]]', np.array([[1, 2]])), ('arr[[1],[2]]', np.array([[1], [2]])), ('arr[[1,2],[3,4]]', sq),
         ('arr[[1,2,3],[4,5,6]]', np.array([[1, 2, 3], [4, 5, 6]])), ('arr0d(1)', np.array(1)), ("arr['a','b']", np.array(['a', 'b'])),
         ('arr[1.,3.]', np.array([1., 3.])), ('arr[1,1]i', np.array([1, 1])), ('arr[[1],[1]]', np.array([[1], [1]])),      # broadcast to all-equal
         # pandas on a DatetimeIndex
@@ -96,6 +97,8 @@ def universe(tier):
         # frames with a ZERO dimension but different labels on the other axis: same shape, no cells to compare, still unequal
         ('DF0x{a,b}', pd.DataFrame({'a': [], 'b': []}, index=E0, dtype=float)), ('DF0x{a,c}', pd.DataFrame({'a': [], 'c': []}, index=E0, dtype=float)),
         ('DF{}@A', pd.DataFrame(index=A)), ('DF{}@B', pd.DataFrame(index=B)),
+        # overlapping VIEWS of one buffer: same shape, same memory, different cells
+        ('buf[:2]', buf[:2]), ('buf[1:]', buf[1:]), ('buf[::-1][1:]', buf[::-1][1:]), ('sq.T', sq.T), ('[buf[:2]]', [buf[:2]]), ('[buf[1:]]', [buf[1:]]),
     ]
     if tier == 'quick':
         return U
